@@ -27,7 +27,7 @@ func arn(r string) string { return "arn:aws:kms:" + r + ":key" }
 // world is the fake cloud: one KMS per region, blobs are region-bound.
 type world struct {
 	failGen, failEnc, failDec map[string]bool
-	wrongDec                  map[string]bool // the region answers Decrypt with a data key that is not the one it wrapped
+	wrongDec                  map[string]bool   // the region answers Decrypt with a data key that is not the one it wrapped
 	blobs                     map[string][]byte // blob id -> plaintext copy
 	blobRegion                map[string]string
 	nblob                     int
